@@ -775,7 +775,9 @@ class BlobStorage(BlobStorageMixin):
         assert not ZODB.interfaces.IBlobStorage.providedBy(storage)
         self.__storage = storage
 
-        self._blob_init(base_directory, layout)
+        # (over a read-only storage we create nothing, like FileStorage)
+        self._blob_init(base_directory, layout,
+                        create=not storage.isReadOnly())
         try:
             supportsUndo = storage.supportsUndo
         except AttributeError:
